@@ -1,6 +1,7 @@
 import OdcGeo.Model.C13
 import OdcGeo.Model.C12
 import OdcGeo.Model.C13Nd
+import OdcGeo.Model.C13Kw
 namespace OdcGeo.C13.Drv
 open OdcGeo OdcGeo.IO OdcGeo.C13
 
@@ -84,6 +85,13 @@ def parseKey? (s : String) : Option Key :=
   if s.startsWith "s" then (parseTIdx? (s.drop 1).toString).map Key.src
   else if s.startsWith "d" then (parseTIdx? (s.drop 1).toString).map Key.dst
   else none
+
+def parseKwList? (s : String) : Option (List (String × String)) :=
+  if s = "-" then some []
+  else (s.splitOn ",").mapM fun e =>
+    match e.splitOn "=" with
+    | [k, v] => some (k, v)
+    | _ => none
 
 structure Common where
   c : Cfg
@@ -183,6 +191,13 @@ def run (args : List String) : Option String :=
         imgOfRows pl (y, xx)
     pure ("/".intercalate (idxs.map fun e =>
       fmtImg x.c.dstH x.c.dstW fun p => daskResultFull ydim tilings x.c x.G arr (withYX ydim e p.1 p.2)))
+  | ["kw", r, sn, dn, ydim, extras] => do
+    -- keywords bound into every chunk task of `_dask_rio_reproject`; extras `k=v,k=v` or `-`
+    let sn ← parseOpt? parseVal? sn; let dn ← parseOpt? parseVal? dn; let ydim ← parseNat? ydim
+    let kw ← parseKwList? extras
+    pure (fmtRes (fun (k : WarpKw) =>
+      s!"resampling={k.resampling};src_nodata={fmtOpt fmtVal k.srcNd};dst_nodata={fmtOpt fmtVal k.dstNd};axis={k.axis};" ++
+        ",".intercalate (k.extra.map fun p => s!"{p.1}={p.2}")) (chunkTaskKw r sn dn ydim kw))
   | "warp" :: rest => do
     -- `_rio_reproject` on a caller buffer (no NaN default); chunk fields unused
     let x ← parseCommon? rest
